@@ -719,4 +719,13 @@ func main() {
 	genVersions(repo, out)
 	genRedact(repo, out)
 	genExtra(repo, out)
+	for _, g := range extraGens {
+		g(repo, out)
+	}
 }
+
+// extraGens: further generators registered from other files of this package (one file per
+// property that needs more tables: gen_cXX.go with func init() { registerGen(...) }).
+var extraGens []func(repo, out string)
+
+func registerGen(g func(repo, out string)) { extraGens = append(extraGens, g) }
